@@ -462,6 +462,10 @@ def process_fn(asm, f, unit):
         pat, nth, text = c[0], c[1], c[2]
         where_ = c[3] if len(c) > 3 else "after"
         tag = "claim:%d" % k
+        if k in DROP_CLAIMS.get(f.qname(), ()):
+            # the claim names a local that the current body no longer has: it cannot be stated -> undecided for that claim only
+            asm.lost_claims.setdefault(f.qname(), []).append((c[5] if len(c) > 5 else tag, c[4] if len(c) > 4 else None))
+            continue
         if nth == 0:
             # "at EVERY occurrence" (e.g. every `return Ok(false)`): the claim is a condition of each such exit, including ones added later
             seg_ = textA[body0:]
@@ -663,6 +667,9 @@ def component_key_groups(text):
                 raise LostAnchor("duplicate literal key in a component!: %s" % keys)
             groups.append(keys)
     return groups
+
+
+DROP_CLAIMS = {}  # qname -> set(claim index): claims whose text does not compile against the current body (set by the checker for a re-run)
 
 
 def assemble(unit, drop_hints=()):
